@@ -1836,7 +1836,14 @@ class ViewsConfiguratorMixin:
         )
         settings.update(view_options)
         if append_slash:
-            view = self._derive_view(view, attr=attr, renderer=renderer)
+            # the wrapped view is reached only through the Not Found view,
+            # which is never protected
+            view = self._derive_view(
+                view,
+                attr=attr,
+                renderer=renderer,
+                permission=NO_PERMISSION_REQUIRED,
+            )
             if IResponse.implementedBy(append_slash):
                 view = AppendSlashNotFoundViewFactory(
                     view, redirect_class=append_slash
